@@ -307,7 +307,9 @@ Definition agree_closerace (k n oks errs pending : nat) (o : sobs) : bool :=
    is: TCPConn.Close does not take sendMutex) on the same schedule *)
 Definition wres (p : wpc) : ores := match p with WDone Ok => ROk | WDone Err => RErr | _ => RPending end.
 
-Definition agree_blocked (nok : nat) (o : robs) : bool :=
+Definition agree_blocked (nok : nat) (blocked : bool) (o : robs) : bool :=
+  (* the Send that fails must have been seen blocked in the write when Stop was called *)
+  blocked &&
   match wrun false winit (blocked_schedule nok) with
   | Some s =>
       list_eqb ores_eqb (map wres (writers s)) (o_sends o) &&
@@ -334,7 +336,7 @@ Inductive case :=
 | RouterRace (tcp : bool) (nin : nat) (o : robs)
 | ServerClose (insts : list nat) (ms : list smacro) (o : sobs)
 | ServerCloseRace (k n oks errs pending : nat) (o : sobs)
-| BlockedSend (nok : nat) (o : robs)
+| BlockedSend (nok : nat) (blocked : bool) (o : robs)
 | CtorHeld (start_ok : bool) (o : sobs).
 
 Definition agree (c : case) : bool :=
@@ -343,7 +345,7 @@ Definition agree (c : case) : bool :=
   | RouterRace _ nin o => agree_race nin o
   | ServerClose insts ms o => agree_server insts ms o
   | ServerCloseRace k n oks errs pending o => agree_closerace k n oks errs pending o
-  | BlockedSend nok o => agree_blocked nok o
+  | BlockedSend nok b o => agree_blocked nok b o
   | CtorHeld ok o => agree_ctor_held ok o
   end.
 
@@ -388,7 +390,7 @@ Definition check (c : case) : list nat :=
   | RouterRace _ _ o => check_router o
   | ServerClose _ _ o => check_server o
   | ServerCloseRace _ _ _ _ _ o => check_server o
-  | BlockedSend _ o => check_router o
+  | BlockedSend _ _ o => check_router o
   | CtorHeld _ o => check_server o
   end.
 
